@@ -2,7 +2,7 @@
 (* Trace validation for C14: every run of the slicec binary must emit exactly the diagnostics that   *)
 (* the library reports for the same input and options (those not suppressed), once each, in order,   *)
 (* with matching totals, summary, exit status and - with colours disabled - no escape sequence.      *)
-(* event: [ev |-> "emit", prog, format, disable_color, allow, lib |-> <<[severity, code, message,    *)
+(* event: [ev |-> "emit", driver (binary | library), prog, format, disable_color, allow, lib |-> <<[severity, code, message,    *)
 (*         at, notes]>>, records |-> <<...>>, json_ok, escapes, sum_w, sum_e, stdout_other, exit]    *)
 EXTENDS Naturals, Integers, Sequences, FiniteSets, TLC, Json, IOUtils
 
